@@ -220,9 +220,11 @@ class FillModel:
     def __init__(self, cap):
         self.cap = cap
         self.len = 0
+        self.total = 8      # bytes of the stream so far (header + everything ever added)
 
     def add(self, size):
         flushed = False
+        self.total += size
         if self.len + size >= self.cap:
             self.len = 0
             flushed = True
